@@ -8,7 +8,7 @@ test -f /opt/veriftools/tla/tla2tools.jar || { echo "tla2tools.jar missing"; exi
 test -x /venv/bin/python || { echo "/venv/bin/python missing"; exit 1; }
 # parse every specification module once (SANY); fail early on a syntax / semantic error
 cd spec
-for f in *.tla; do
+for f in *.tla; do   # (spec/apalache/*.tla are parsed by apalache-mc when C12 / C13 run)
   java -cp /opt/veriftools/tla/tla2tools.jar:/opt/veriftools/tla/CommunityModules-deps.jar tla2sany.SANY "$f" > ../work/sany.log 2>&1 || { cat ../work/sany.log; echo "SANY failed on $f"; exit 1; }
   grep -q "Semantic errors\|Parse Error\|Fatal" ../work/sany.log && { cat ../work/sany.log; echo "SANY errors in $f"; exit 1; }
 done
